@@ -73,6 +73,7 @@ C07Pool(e) ==
        SpecEq(a, b) == e.items[a].ver = e.items[b].ver /\ P[a].minor = P[b].minor /\ D[a] = D[b]
        Obs(k) == <<e.out.objs[k].scores, e.out.objs[k].sev, e.out.objs[k].clean>>
    IN IF Len(e.out.raised) > 0 THEN "comparison-raised-" \o e.out.raised[1]
+      ELSE IF \E a \in 1..n : ~e.out.unchanged_after[a] THEN "comparison-changed-an-operand"
       ELSE IF \E a, b \in 1..n : okk(a) /\ okk(b) /\ e.out.eq[a][b] # SpecEq(a, b) THEN "eq-matrix"
       ELSE IF \E a, b \in 1..n : okk(a) /\ okk(b) /\ e.out.ne[a][b] = e.out.eq[a][b] THEN "ne-not-negation-of-eq"
       ELSE IF \E a, b \in 1..n : okk(a) /\ okk(b) /\ e.out.eq[a][b] /\ ~e.out.hash_eq[a][b] THEN "equal-but-hash-differs"
